@@ -10,12 +10,15 @@
 
 mod common;
 mod eng_rid;
+mod srctree;
+mod eng_src;
+mod eng_dir;
 
 use common::*;
 use std::{fs, io::Write, path::PathBuf};
 
 fn engines() -> Vec<Box<dyn Engine>> {
-    vec![Box::new(eng_rid::RidEngine::default())]
+    vec![Box::new(eng_rid::RidEngine::default()), Box::new(eng_src::SrcEngine::default()), Box::new(eng_dir::DirEngine::default())]
 }
 
 fn main() {
